@@ -155,7 +155,7 @@ def run_property(prop, tier, seed, args):
         return do_replay_file(prop, args.replay)
     items = []
     for qn, con in REGISTRY.contracts.items():
-        if prop in con.props:
+        if prop in con.props and not con.trusted:
             for i, _ in enumerate(engine.cases_of(con)):
                 items.append((qn, i, prop))
     reports = []
